@@ -179,7 +179,10 @@ def gen_member_edit(draw, G):
     p = list(s.path)
     kind = draw(st.sampled_from([
         "new_cells", "new_cells", "set_formula", "set_formula", "del_cells", "rename_cells", "set_ref", "set_ref",
-        "del_ref", "add_bases", "add_bases", "remove_bases", "new_space", "set_cached", "override", "override"]))
+        "del_ref", "add_bases", "add_bases", "remove_bases", "new_space", "set_cached", "override", "override",
+        "del_space", "rename_space"]))
+    if kind in ("del_space", "rename_space"):
+        return gen.gen_edit(draw, G, FEAT, kinds=[kind])
     names = ["c%d" % i for i in range(FEAT.max_rank + 1)]
     if kind == "new_cells":
         free = [n for n in names if n not in s.cells and G.find_cells(s, n) is None] or \
